@@ -166,6 +166,10 @@ def oracle(ctx, case, rec, scene):
              max_change_deg=float(np.max(np.abs(ra[:ninit] - ra0)) if len(ra0) == ninit else -1))
     if ids[:ninit] != [int(i) for i in ids0]:
         fail('ids of the original reference rows changed', returned=ids[:5], original=list(ids0)[:5])
+    # (a') the footprint of the growing reference catalog follows its rows (it decides every later overlap)
+    for b in alignsim.stale_footprints(rec['obs']):
+        fail('after expand_catalog the footprint of the reference catalog is not the footprint of its rows', **b)
+        break
     # (b) growth only with expand_refcat
     if not spec['expand']:
         if len(out) != ninit or rec['obs'].expansions:
